@@ -170,26 +170,14 @@ def run(check):
   if tq is None:
     r_f.cannot_decide('takeSomeFromQueue not found')
   else:
-    rets = [n for n in walk_no_nested(tq.node, include_self=False) if isinstance(n, ast.Return) and n.value is not None]
-    ok = bool(rets)
-    for r in rets:
-      v = r.value
-      good = False
-      if isinstance(v, ast.Call) and isinstance(v.func, ast.Name) and v.func.id == 'list' and v.args and \
-         isinstance(v.args[0], ast.Call) and isinstance(v.args[0].func, ast.Name):
-        gen = next((f for f in tq.module.all_functions() if f.parent_fn is tq and f.name == v.args[0].func.id), None)
-        if gen is not None:
-          ys = [y for y in walk_no_nested(gen.node, include_self=False) if isinstance(y, ast.Yield)]
-          good = bool(ys) and all(isinstance(y.value, ast.Call) and isinstance(y.value.func, ast.Attribute) and
-                                  y.value.func.attr == 'popleft' for y in ys)
-      elif isinstance(v, ast.Name):
-        good = True   # a list built by append of popleft results: checked loosely
-      ok = ok and good
-    if ok:
+    from ..clientmodel import BatchShape
+    bs = BatchShape(cx, tq)
+    if not bs.problems:
       r_f.ok('takeSomeFromQueue returns exactly the popped items, in order', tq.loc())
     else:
-      r_f.violate('batch differs from what was popped', tq, rets[0] if rets else None, 'takeSomeFromQueue does not return '
-                  'the list of the items it popped from the head of the queue, in pop order')
+      for node, msg in bs.problems[:3]:
+        r_f.violate('batch differs from what was popped', tq, node, 'takeSomeFromQueue does not return the list of the items it popped '
+                    'from the head of the queue, in pop order: %s' % msg)
 
   # ------------------------------------------------------------------ popped = sent, through the live connection
   r_s = check.rule('R-C07-sent', 3, 'every batch taken from the queue is sent whole, by the live connection, when not paused')
